@@ -39,7 +39,7 @@ PAYLOADS = [
     ">5", "<5", ">=5", "<=2.5", "<>3", ">1e2", ">", "<>", "<=",
 ]
 OPNUM = re.compile(r'^(>=|<=|<>|>|<)((\d+)((\.)(\d+))?(e(-?\d+))?)?$')
-POSITIONS = ['const', 'lit', 'cat2', 'cat3', 'sumif', 'sumif_op', 'sumifs', 'countifs', 'averageifs', 'search', 'if', 'lit_lead']
+POSITIONS = ['const', 'lit', 'cat2', 'cat3', 'sumif', 'sumif_op', 'sumifs', 'countifs', 'averageifs', 'search', 'if', 'lit_lead', 'crit_lead', 'crit_lead2']
 
 
 def strings(maxlen):
@@ -84,6 +84,14 @@ def base_index(s, base):
     return 1 if is_pattern(s) else 0
 
 
+def _numlike(s):
+    try:
+        float(s)
+        return True
+    except ValueError:
+        return False
+
+
 def is_pattern(s):
     return re.search(r'(?<!~)[?*]', s) is not None
 
@@ -112,6 +120,8 @@ def items_for(s, const_only=False):
         add('M', 'search', f'=SEARCH({q},C@0)')
         add('N', 'if', f'=IF(A@0={q},1,2)')
         add('O', 'lit_lead', f'=SUMIF(A@0:A@1,"<>"&{q})')
+        add('P', 'crit_lead', f'=SUMIF(A@0:A@1,{q}&B@0,B@0:B@1)')
+        add('Q', 'crit_lead2', f'=COUNTIFS(A@0:A@1,{q}&"")')
     return {'f': f, 'cells': cells, 'h': 2}, pos
 
 
@@ -211,10 +221,13 @@ def run_strings(cases, stats):
                     expect[a] = s + s
                 elif p == 'cat3':
                     expect[a] = 'x' + s + 'y'
+                elif p == 'crit_lead2' and s and re.fullmatch(r'[^<>=?*~]+', s) and not _numlike(s):
+                    # the criterion is the text itself (no operator, no wildcard): it selects the one cell that holds it
+                    expect[a] = 1
             for a, e in expect.items():
                 out = res[a]
                 stats['validated'] += 1
-                if not (out[0] == 'VALUE' and type(out[1]) is str and out[1] == e):
+                if not (out[0] == 'VALUE' and type(out[1]) is type(e) and out[1] == e):
                     vio.append({'i': k - NB, 'desc': {'clause': 'round_trip', 'safety': safety, 'position': pos.get(a, 'const'),
                                                      'chars': chars_of(s),
                                                      'outcome': out[0] if out[0] != 'VALUE' else 'VALUE_MISMATCH'},
